@@ -154,3 +154,21 @@ Example block_order_example :
 Proof.
   cbv zeta. split; [intros H; discriminate H|split; [apply perm_swap|vm_compute; reflexivity]].
 Qed.
+
+(* ---- completeness for meshes over the same cell types ------------------------------------------------------------ *)
+(* the converse of mesh_equal_sound where no pixel/quad or voxel/hexahedron exchange is involved: points pairwise within
+   tolerance and, type by type, rows with the same corners (in any corner order) are ENOUGH for the verdict "equal" —
+   the comparison looks at nothing else *)
+Theorem mesh_equal_complete rel abs A B :
+  NoDup (cell_types A) -> Permutation (cell_types A) (cell_types B) ->
+  points_close rel abs (pts A) (pts B) = true ->
+  (forall t, In t (cell_types A) -> rows_equal (rows_of t (cells A)) (rows_of t (cells B)) = true) ->
+  mesh_equal rel abs A B = true.
+Proof.
+  intros Hnd HT Hp Hr. unfold mesh_equal. rewrite Hp. cbn [andb].
+  unfold match_types. rewrite (Permutation_length HT), Nat.eqb_refl.
+  rewrite (match_types_aux_refl (cell_types A) (cell_types B) []);
+    [|intros s Hs; apply (Permutation_in _ HT); exact Hs|exact Hnd|intros s _ H; exact H].
+  apply forallb_forall. intros [s t] Hst. apply in_map_iff in Hst. destruct Hst as [s' [E Hin]]. inversion E; subst.
+  cbn [fst snd]. apply Hr. exact Hin.
+Qed.
